@@ -268,6 +268,11 @@ inline bool check_c02(const Bytes &w, const C02Params &pr, Outcome &o) {
     { unsigned char *s = nullptr; long enclen = -1; int st = ares_expand_string(p + off, p, alen, &s, &enclen);
       if (st == ARES_SUCCESS) { if (!s) return c02_fail(o, "expand-string-success-without-string"); if (enclen <= 0 || (size_t)enclen > (size_t)alen - off) return c02_fail(o, "expand-string-enclen-out-of-range"); if (strlen((char *)s) > (size_t)enclen) return c02_fail(o, "expand-string-longer-than-encoded"); ares_free_string(s); count("c02.expand_string_ok"); }
       else if (s) return c02_fail(o, "expand-string-failure-with-result"); }
+    // the string decoder documents a NULL destination as "skip the value": same status and length, nothing allocated for the caller
+    { long enclen = -1; long live = vf::ledger().live; int st = ares_expand_string(p + off, p, alen, nullptr, &enclen);
+      if (st == ARES_SUCCESS && (enclen <= 0 || (size_t)enclen > (size_t)alen - off)) return c02_fail(o, "expand-string-enclen-out-of-range", "NULL destination");
+      if (vf::ledger().live != live) return c02_fail(o, "expand-string-null-destination-leaks", std::to_string(vf::ledger().live - live) + " blocks still allocated after ares_expand_string(..., NULL, ...) returned " + std::to_string(st));
+      if (st == ARES_SUCCESS) count("c02.expand_string_skip_ok"); }
   }
   return true;
 }
